@@ -50,6 +50,10 @@ const (
 	tPathDir
 	tRequestObj
 	tTypeNested
+	tOpen           // "(" on its own line: explicit context of the previous directive
+	tClose          // ")" on its own line
+	tIncludeFile    // INCLUDE inc.jst (present in the virtual file system of harnesses that set verifFiles)
+	tIncludeMissing // INCLUDE nofile.jst
 )
 
 var verifTplNames = []string{"JSIGHT", "INFO", "Title", "Version", "SERVER", "BaseUrl", "URL", "GET", "POST", "GET /p", "Request any",
@@ -146,6 +150,14 @@ func verifLineWith(t int, l string) string {
 			next = "a"
 		}
 		return "TYPE @" + l + "\n{\n  \"nest" + l + "\": { // {allOf: \"@" + next + "\"}\n    \"m" + l + "\": 1\n  }\n}"
+	case tOpen:
+		return "("
+	case tClose:
+		return ")"
+	case tIncludeFile:
+		return "INCLUDE inc.jst"
+	case tIncludeMissing:
+		return "INCLUDE nofile.jst"
 	case tRespRef:
 		return "200 @" + l
 	case tURLParam:
@@ -358,11 +370,15 @@ var verifMenuTags = []int{tTag, tURL, tTags, tGet, tPost, tGetPath}
 func VerifH_CatalogStructure() {
 	k := verifrt.Bound("K")
 	menu := verifMenuStructure
-	if verifrt.Bound("MENU") == 1 {
+	if verifrt.Bound("MENU") >= 1 {
 		menu = verifMenuTags
 	}
+	if verifrt.Bound("MENU") == 2 {
+		// with explicit parentheses: a URL-level Tags may then follow a (closed) method
+		menu = []int{tURL, tTags, tGet, tPost, tOpen, tClose}
+	}
 	text, lines := verifDocLines(menu, k, true)
-	if verifrt.Bound("MENU") == 1 {
+	if verifrt.Bound("MENU") >= 1 {
 		// both tags are declared up front, so that Tags directives at URL and method level are acceptable
 		pre := []refLine{{t: tJsight, parent: -1}, {t: tTag, letter: "a", parent: -1}, {t: tTag, letter: "b", parent: -1}}
 		lines = append(pre, lines[1:]...)
